@@ -369,8 +369,16 @@ def run(c):
     c.cov["N_histogram"] = {str(k): v for k, v in sorted(hist.items())}
     if ndis:
         c.corr_break("%d of %d model/implementation lines differ; first: %s" % (ndis, len(lines), first["routine"]), first)
-    for what, rep in searchfail[:3]:
-        c.violation(what.split(":")[0], what, rep)
+    reported = 0
+    for what, rep in searchfail:
+        if "config" in rep:      # call-site finding: keyed by integrator, so another integrator's call sites still alarm
+            key = "callsite-split:" + rep["config"]["integ"]
+        else:
+            key = what.split(":")[0]
+        if c.violation(key, what, rep):
+            reported += 1
+            if reported >= 3:
+                break
 
 
 if __name__ == "__main__":
